@@ -724,6 +724,16 @@ class CurveEngine:
     # ----- shrinking hints -------------------------------------------------------------
     def simplify(self, plan):
         ops = plan["ops"]
+        # operand indices are taken modulo the world size, so deleting a 'create' re-targets later steps; offer
+        # small explicit indices so that ddmin can then drop the curves that are not involved
+        for i, op in enumerate(ops):
+            for key in ("a", "b", "src"):
+                if key in op and op[key] > 3:
+                    for val in (0, 1, 2):
+                        yield dict(plan, ops=ops[:i] + [dict(op, **{key: val})] + ops[i + 1:])
+        for i, op in enumerate(ops):
+            if op["op"] == "create" and len([o for o in ops if o["op"] == "create"]) > 1:
+                yield dict(plan, ops=ops[:i] + ops[i + 1:])
         for i, op in enumerate(ops):
             if op.get("faulty"):
                 yield dict(plan, ops=ops[:i] + [dict(op, faulty=False)] + ops[i + 1:])
